@@ -442,7 +442,7 @@ Lemma step_connect s c :
   has_conn c s = false ->
   step cfg s (EB (EConnect c)) =
     (set_log (set_conns s (conns s ++ [(c, new_conn)])) [],
-     mkObs true [LFrame c FWelcome (is_clean s)] None []).
+     mkObs true [LFrame c (FWelcome (welcome cfg)) (is_clean s) (now s)] None []).
 Proof.
   intros H. unfold step.
   assert (H' : has_conn c (set_log s []) = false) by exact H.
@@ -526,7 +526,7 @@ Proof.
   assert (Hl1 : lookup_conn c' (conns s1) = Some new_conn).
   { unfold s1. cbn [conns set_log set_conns]. apply dup_lookup_snoc. exact Hl. }
   destruct (step_bind s1 c' a side Hl1) as (s2 & o2 & E2 & Hw & Hc & Hs & Hcn & Hk & Hlog).
-  exists s2, (mkObs true [LFrame c' FWelcome (is_clean s)] None []), o2.
+  exists s2, (mkObs true [LFrame c' (FWelcome (welcome cfg)) (is_clean s) (now s)] None []), o2.
   split; [exact Hw|]. split; [exact Hc|]. split; [exact Hs|].
   split. { rewrite Hcn. unfold s1. cbn [conns set_log set_conns]. apply dup_update_snoc. exact Hl. }
   split; [exact Hk|]. split; [exact Hlog|].
@@ -568,7 +568,7 @@ Lemma handle_claim_eval c a side msg o n s cs npid mbox d1 d2 :
     if ((2 <? List.length (sel_mbs_all d2 mbox)) || (2 <? List.length (sel_nps_all d2 npid)))%nat
     then Exn (XErr ErrCrowded) (claimed_state (claim_conn s c cs n) d1 d2)
     else Ok tt (set_log (claimed_state (claim_conn s c cs n) d1 d2)
-                  (LFrame c (FClaimed mbox) (is_clean (claimed_state (claim_conn s c cs n) d1 d2)) ::
+                  (LFrame c (FClaimed mbox) (is_clean (claimed_state (claim_conn s c cs n) d1 d2)) (now (claimed_state (claim_conn s c cs n) d1 d2)) ::
                    log (claimed_state (claim_conn s c cs n) d1 d2))).
 Proof.
   intros Hl Hn Hdc H1 H2. unfold handle_claim. rewrite Hn.
@@ -605,7 +605,7 @@ Proof.
   { rewrite (open_body_has _ _ _ _ _ Hmb), Eod. reflexivity. }
   pose proof (claim_body_done (chan_w s) a n side (now s) (o_draw o) np r1 Hnp Hr1 Hcl) as Ecb.
   rewrite (step_cmd cfg s c cmd o TClaim cs Hl Ht).
-  set (s0 := set_log s [LFrame c (FAck (m_id cmd)) (is_clean s)]).
+  set (s0 := set_log s [LFrame c (FAck (m_id cmd)) (is_clean s) (now s)]).
   rewrite (dispatch_bound cfg c TClaim cmd o s0 a side)
     by (try discriminate; unfold conn_of, s0; cbn [conns set_log]; rewrite Hl; exact Hb).
   rewrite (handle_claim_eval c a side cmd o n s0 cs (np_id np) (np_mbox np) (chan_w s) (chan_w s)
@@ -657,7 +657,7 @@ Proof.
     cbv beta iota. eexists. split; [reflexivity|]. auto 10.
 Qed.
 
-Lemma lframes_one c f b : lframes [LFrame c f b] = [(c, f)].
+Lemma lframes_one c f b tx : lframes [LFrame c f b tx] = [(c, f)].
 Proof. reflexivity. Qed.
 
 Lemma release_step_done s c cs a side n cmd o :
@@ -674,7 +674,7 @@ Lemma release_step_done s c cs a side n cmd o :
 Proof.
   intros Hdb Hc Hl Hb Hdr Hni Ht Hn Hdone.
   rewrite (step_cmd cfg s c cmd o TRelease cs Hl Ht).
-  set (s0 := set_log s [LFrame c (FAck (m_id cmd)) (is_clean s)]).
+  set (s0 := set_log s [LFrame c (FAck (m_id cmd)) (is_clean s) (now s)]).
   rewrite (dispatch_bound cfg c TRelease cmd o s0 a side)
     by (try discriminate; unfold conn_of, s0; cbn [conns set_log]; rewrite Hl; exact Hb).
   unfold handle_release. rewrite bind_get_conn. unfold conn_of.
@@ -690,8 +690,8 @@ Proof.
   split; [exact Hw2|]. split; [exact Hc2|]. split; [exact Hs2|].
   split; [exact Hcn2|]. split; [reflexivity|]. split; [exact Hk2|].
   split; [|reflexivity].
-  change (frames_of (rev (LFrame c FReleased (is_clean s2) :: log s2)))
-    with (lframes (LFrame c FReleased (is_clean s2) :: log s2)).
+  change (frames_of (rev (LFrame c FReleased (is_clean s2) (now s2) :: log s2)))
+    with (lframes (LFrame c FReleased (is_clean s2) (now s2) :: log s2)).
   rewrite lframes_frame, Hf2. reflexivity.
 Qed.
 
@@ -725,7 +725,7 @@ Proof.
   intros Hl Hb Hmb Ht Hm Hdone Hns.
   destruct (open_done_db _ _ _ _ _ Hdone) as [Eob Ecr].
   rewrite (step_cmd cfg s c cmd o TOpen cs Hl Ht).
-  set (s0 := set_log s [LFrame c (FAck (m_id cmd)) (is_clean s)]).
+  set (s0 := set_log s [LFrame c (FAck (m_id cmd)) (is_clean s) (now s)]).
   rewrite (dispatch_bound cfg c TOpen cmd o s0 a side)
     by (try discriminate; unfold conn_of, s0; cbn [conns set_log]; rewrite Hl; exact Hb).
   unfold handle_open. rewrite bind_get_conn. unfold conn_of.
@@ -854,7 +854,7 @@ Proof.
   { unfold name_mismatch. rewrite Hm, Hmi. reflexivity. }
   assert (Hcm : cmd_mbox cs cmd = Some m) by (unfold cmd_mbox; rewrite Hm; reflexivity).
   rewrite (step_cmd cfg s c cmd o TClose cs Hl Ht).
-  set (s0 := set_log s [LFrame c (FAck (m_id cmd)) (is_clean s)]).
+  set (s0 := set_log s [LFrame c (FAck (m_id cmd)) (is_clean s) (now s)]).
   rewrite (dispatch_bound cfg c TClose cmd o s0 a side)
     by (try discriminate; unfold conn_of, s0; cbn [conns set_log]; rewrite Hl; exact Hb).
   rewrite (handle_close_fresh_ok cfg c a side cmd s0 cs m d1 Hl Hdc Hnm Hcm Hmb Hlis Hob).
@@ -891,7 +891,7 @@ Proof.
   destruct HS as [Hdb [Hcw Hcu] _ _ _ _].
   unfold erroneous in Herr. rewrite Ht, Hb, Hn in Herr.
   rewrite (step_cmd cfg s c msg o TClaim cs Hlk Ht).
-  set (s1 := set_log s [LFrame c (FAck (m_id msg)) (is_clean s)]).
+  set (s1 := set_log s [LFrame c (FAck (m_id msg)) (is_clean s) (now s)]).
   assert (Hco : conn_of s1 c = cs) by (unfold conn_of; cbn; rewrite Hlk; reflexivity).
   rewrite (dispatch_bound cfg c TClaim msg o s1 a side); try discriminate;
     [|rewrite Hco; exact Hb].
